@@ -62,6 +62,10 @@ pub mod num {
         impl Ratio<BigInt> {
             /// floor(): an integral ratio (denominator 1)
             #[verifier::external_body] pub fn floor(&self) -> (r: Ratio<BigInt>) ensures r@ == (Frac { n: self@.n / self@.d, d: 1 }) { unimplemented!() }
+            /// round() (half away from zero), ceil(), trunc(): the other integral roundings of num-rational, for non-negative ratios
+            #[verifier::external_body] pub fn round(&self) -> (r: Ratio<BigInt>) ensures self@.n >= 0 ==> r@ == (Frac { n: (2 * self@.n + self@.d) / (2 * self@.d), d: 1 }) { unimplemented!() }
+            #[verifier::external_body] pub fn ceil(&self) -> (r: Ratio<BigInt>) ensures r@ == (Frac { n: (self@.n + self@.d - 1) / self@.d, d: 1 }) { unimplemented!() }
+            #[verifier::external_body] pub fn trunc(&self) -> (r: Ratio<BigInt>) ensures self@.n >= 0 ==> r@ == (Frac { n: self@.n / self@.d, d: 1 }) { unimplemented!() }
             /// numerator of the reduced form; only ever called right after floor() in the repo (denominator 1)
             #[verifier::external_body] pub fn numer(&self) -> (r: &BigInt) requires self@.d == 1 ensures r@ == self@.n { unimplemented!() }
             #[verifier::external_body] pub fn recip(&self) -> (r: Ratio<BigInt>) requires self@.n != 0 ensures self@.n > 0 ==> r@ == (Frac { n: self@.d, d: self@.n }) { unimplemented!() }
